@@ -46,8 +46,12 @@ qutip's size / keepList bookkeeping (the list handed to `ptrace`) with
 `absorb_parts`) with `ProjQBk`."""
 import gc
 import itertools
+import json
 import os
+import shutil
+import subprocess
 import sys
+import tempfile
 
 import numpy as np
 
@@ -335,6 +339,10 @@ class Adapter:
         """bookkeeping observation for the Lean tie"""
         return None
 
+    def reencode(self, export, perm):
+        """another encoding of the SAME exported state, chosen by `perm` (only where the export format has that freedom)"""
+        return export
+
 
 class StabAdapter(Adapter):
     name = "stab"
@@ -434,6 +442,26 @@ class ProjQAdapter(Adapter):
     def book(self, eng):
         return (int(eng.activeQubits), tuple(int(q.id) for q in eng.qubitReg))
 
+    def reencode(self, export, perm):
+        """projectq's export is (slot -> bit position, amplitudes indexed by those bit positions): the same state with the
+        bit positions permuted and the amplitudes re-indexed accordingly.  The engine itself only ever exports the identity
+        map, so without this the re-indexing loop of absorb_parts would never see anything else."""
+        order, (re, im) = export
+        n = len(order)
+        if not perm or n < 2:
+            return export
+        ranks = sorted(range(n), key=lambda i: perm[i])          # a permutation of the n bit positions
+        pi = {b: ranks[b] for b in range(n)}
+        new_order = {i: pi[b] for i, b in order.items()}
+        new_re, new_im = [0.0] * len(re), [0.0] * len(im)
+        for k in range(len(re)):
+            k2 = 0
+            for b in range(n):
+                if (k >> b) & 1:
+                    k2 |= 1 << pi[b]
+            new_re[k2], new_im[k2] = re[k], im[k]
+        return new_order, (tuple(new_re), tuple(new_im))
+
 
 ADAPTERS = {"stab": StabAdapter(), "qutip": QutipAdapter(), "projq": ProjQAdapter()}
 
@@ -456,39 +484,40 @@ def gen_sequence(rng, maxlen=12):
         nxt += 1
         return nxt - 1
 
-    new(rng.choice([1, 2, 3, 3, 4, 4, 5, 6, 6]))
-    length = rng.randint(3, maxlen)
-    style = rng.random()
-    while len(seq) < length:
+    def limit():
+        return rng.choice([2, 3, 3, 4, 4, 5, 6, 6]) if rng.random() < 0.9 else rng.choice([0, 1])
+
+    for _ in range(rng.choice([1, 1, 2, 2, 2, 3])):
+        new(limit())
+    # `new` creates a register and is not a call of the register interface: it does not count towards maxlen
+    length = rng.randint(8, maxlen) if rng.random() < 0.85 else rng.randint(1, 7)
+    while sum(1 for op in seq if op[0] != "new") < length:
         live = sorted(size)
-        r = rng.choice(live)
+        r = rng.choices(live, weights=[size[q] + 1 for q in live])[0]
         n = size[r]
         x = rng.random()
-        if style < 0.35 and len(seq) < 5:
-            x = rng.choice([0.05, 0.05, 0.3, 0.45])       # build-up phase: adds and gates first
-        if x < 0.13 and len(live) < 3:
-            new(rng.choice([0, 1, 2, 2, 3, 3, 4, 5, 6]))
-        elif x < 0.30:
+        bad = rng.random() < 0.06
+        if x < 0.04 and len(live) < 3:
+            new(limit())
+        elif x < 0.15 or (n == 0 and x < 0.80) or (n == 1 and x < 0.50):
             if rng.random() < 0.25:
                 seq.append(["addst", r, rng.choice(list(STATES))])
             else:
                 seq.append(["add", r])
             if n < mx[r]:
                 size[r] += 1
-        elif x < 0.50:
-            bad = rng.random() < 0.06
+        elif x < 0.36 or (n < 2 and x < 0.70):
             j = n + rng.randint(0, 1) if (bad or n == 0) else rng.randrange(n)
-            g = "T" if rng.random() < 0.04 else rng.choice(CLIFFORD1)
+            g = "T" if rng.random() < 0.04 else rng.choice(CLIFFORD1 + ("H", "H", "K"))
             seq.append(["g1", r, g, j])
-        elif x < 0.68:
-            if n >= 2 and rng.random() > 0.07:
+        elif x < 0.66:
+            if not bad:
                 c, t = rng.sample(range(n), 2)
             else:
-                c, t = rng.choice([(0, 0), (n, 0), (0, n), (n, n + 1), (max(n - 1, 0), max(n - 1, 0))])
+                c, t = rng.choice([(0, 0), (n, 0), (0, n), (n, n + 1), (n - 1, n - 1)])
             seq.append(["g2", r, rng.choice(list(G2)), c, t])
-        elif x < 0.86:
+        elif x < 0.83:
             kind = rng.choice(["mi", "md", "rm"])
-            bad = rng.random() < 0.08
             j = n + rng.randint(0, 1) if (bad or n == 0) else rng.randrange(n)
             seq.append([kind, r, j, rng.randrange(2)])
             if kind != "mi" and j < n:
@@ -496,13 +525,67 @@ def gen_sequence(rng, maxlen=12):
         else:
             others = [q for q in live if q != r]
             if not others:
-                new(rng.choice([1, 2, 3, 4]))
+                new(limit())
                 continue
-            o = rng.choice(others)
-            seq.append([rng.choice(["abs", "absp"]), r, o])
+            # mostly merges that fit; an over-full one now and then
+            fits = [q for q in others if size[r] + size[q] <= mx[r]]
+            o = rng.choice(fits) if (fits and rng.random() < 0.85) else rng.choice(others)
+            seq.append(_merge_op(rng, r, o))
             if size[r] + size[o] <= mx[r]:
                 size[r] += size[o]
                 del size[o], mx[o]
+    return seq
+
+
+def _merge_op(rng, dst, src):
+    if rng.random() < 0.5:
+        return ["abs", dst, src]
+    op = ["absp", dst, src]
+    if rng.random() < 0.6:
+        op.append(rng.sample(range(6), 6))      # re-encoding of the export (used where the format allows one)
+    return op
+
+
+def gen_scenario(rng, maxlen=12):
+    """the situation the property names: an entangled state without symmetry between its slots is absorbed /
+    exported into an empty or non-empty register, then probed; <= maxlen interface calls"""
+    k = rng.choice([2, 2, 3, 3, 4])
+    d = rng.choice([0, 0, 1, 1, 2])
+    src, dst = (1, 0) if rng.random() < 0.8 else (0, 1)
+    dmax = rng.choice([k + d, k + d, k + d + 1, 6]) if rng.random() < 0.9 else max(k + d - 1, 0)
+    seq = [["new", dst, min(dmax, 6)], ["new", src, rng.choice([k, k + 1, 6])]]
+    body = [["add", src] if rng.random() < 0.8 else ["addst", src, rng.choice(list(STATES))] for _ in range(k)]
+    hub = rng.randrange(k)
+    body.append(["g1", src, rng.choice(["H", "K"]), hub])
+    for t in rng.sample([q for q in range(k) if q != hub], rng.randint(1, k - 1)):
+        if rng.random() < 0.75:
+            body.append(["g2", src, "CNOT", hub, t])
+        else:
+            body.append(["g1", src, rng.choice(["H", "K"]), t])
+            body.append(["g2", src, "CPHASE"] + rng.sample([hub, t], 2))
+    for _ in range(rng.randint(1, 2)):
+        body.append(["g1", src, rng.choice(CLIFFORD1), rng.randrange(k)])
+    pre = [["add", dst] for _ in range(d)]
+    if d and rng.random() < 0.7:
+        pre.append(["g1", dst, rng.choice(["H", "K", "X"]), rng.randrange(d)])
+    if d == 2 and rng.random() < 0.5:
+        pre.append(["g2", dst, "CNOT", 0, 1])
+    seq += (body + pre) if rng.random() < 0.5 else (pre + body)
+    seq.append(_merge_op(rng, dst, src))
+    n = d + k
+    while sum(1 for op in seq if op[0] != "new") < maxlen:
+        x = rng.random()
+        if x < 0.45:
+            seq.append([rng.choice(["mi", "md", "rm"]), dst, rng.randrange(n), rng.randrange(2)])
+            if seq[-1][0] != "mi":
+                n -= 1
+        elif x < 0.7 and n >= 2:
+            c, t = rng.sample(range(n), 2)
+            seq.append(["g2", dst, rng.choice(list(G2)), c, t])
+        else:
+            seq.append(["g1", dst, rng.choice(CLIFFORD1), rng.randrange(n)])
+        if n == 0:
+            break
     return seq
 
 
@@ -559,7 +642,7 @@ def run_sequence(ename, seq, rec=None):
         n = ref.n
         pre = ad.dump(e) if (rec is not None and ename == "stab") else None
         pre_book = ad.book(e) if rec is not None else None
-        pre2 = pre2_book = other = oref = None
+        pre2 = pre2_book = other = oref = bits = None
         ptr = []
         exp = None                        # ("ok", value) | ("err", class name or None = any exception)
         newref = ref.copy()
@@ -619,11 +702,16 @@ def run_sequence(ename, seq, rec=None):
             other, oref = engs[op[2]], refs[op[2]]
             pre2 = ad.dump(other) if pre is not None else None
             pre2_book = ad.book(other) if rec is not None else None
+            if rec is not None and ename == "projq":
+                o2 = other.get_register_RI()
+                if kind == "absp":
+                    o2 = ad.reencode(o2, op[3] if len(op) > 3 else None)
+                bits = [int(o2[0][i]) for i in range(len(o2[0]))]
             if n + oref.n > ref.max:
                 exp = ("err", "quantumError")
             else:
                 exp = ("ok", None)
-                if n and oref.n and (_entangled(oref) or _entangled(ref)):
+                if _entangled(oref):
                     stats["entangled_absorb"] += 1
                 newref.absorb(oref)
                 drop_other = True
@@ -631,7 +719,7 @@ def run_sequence(ename, seq, rec=None):
                 call = lambda: e.absorb(other)                                   # noqa: E731
             else:
                 def call():
-                    r_, i_ = other.get_register_RI()
+                    r_, i_ = ad.reencode(other.get_register_RI(), op[3] if len(op) > 3 else None)
                     return e.absorb_parts(r_, i_, other.activeQubits)
         else:
             raise core.MachineryError("unknown op %r" % (op,))
@@ -649,7 +737,8 @@ def run_sequence(ename, seq, rec=None):
         # ---- judge the call against the contract ---------------------------
         if exp[0] == "ok":
             if obs[0] != "ok":
-                fail(step, "%s raised %s: %s where the contract succeeds" % (_mname(op), obs[1], obs[2]), "%s:raises-%s" % (kind, obs[1]))
+                fail(step, "%s raised %s: %s where the contract succeeds" % (_mname(op), obs[1], obs[2]),
+                     "%s:raises-%s" % ("measure" if kind in ("mi", "md") else kind, obs[1]))
             val = obs[1]
             if kind in ("add", "addst") and val != exp[1]:
                 fail(step, "%s returned %r, contract says the old size %r" % (_mname(op), val, exp[1]), "%s:return" % kind)
@@ -678,7 +767,7 @@ def run_sequence(ename, seq, rec=None):
         if rec is not None:
             rec.append({"engine": ename, "op": op, "obs": obs[:2], "pre": pre, "pre2": pre2,
                         "post": ad.dump(e) if pre is not None else None, "pre_book": pre_book, "pre2_book": pre2_book,
-                        "post_book": ad.book(e), "ptrace": ptr, "spec_pre": (ref.max, list(ref.labels)),
+                        "post_book": ad.book(e), "ptrace": ptr, "bits": bits, "spec_pre": (ref.max, list(ref.labels)),
                         "spec_pre2": (oref.max, list(oref.labels)) if oref is not None else None,
                         "spec_post": list(newref.labels), "exp": exp})
         check_states(step)
@@ -688,12 +777,18 @@ def run_sequence(ename, seq, rec=None):
 
 
 def _entangled(ref):
-    if ref.n < 2:
+    """some slot of a (pure) reference state is entangled with the rest"""
+    n = ref.n
+    if n < 2:
         return False
-    red = ref.rho
-    for _ in range(ref.n - 1):
-        red = trace_out(red, int(np.log2(red.shape[0])), 1)
-    return float(np.real(np.trace(red @ red))) < 1 - 1e-6
+    for q in range(n):
+        m = ref.rho
+        for a in range(n - 1, -1, -1):
+            if a != q:
+                m = trace_out(m, int(np.log2(m.shape[0])), a)
+        if float(np.real(np.trace(m @ m))) < 1 - 1e-6:
+            return True
+    return False
 
 
 def _mname(op):
@@ -799,19 +894,22 @@ def spec_line(r):
     op = r["op"]
     k = op[0]
     mx, ls = r["spec_pre"]
-    head = {"add": "add 1", "addst": "add 1", "mi": "measure_inplace %d" % (op[2] if k == "mi" else 0),
-            "md": "measure %d" % (op[2] if k == "md" else 0), "rm": "remove %d" % (op[2] if k == "rm" else 0)}.get(k)
-    if k == "g1":
-        head = "unsupported" if (op[2] == "T" and r["engine"] == "stab") else "gate %d" % op[3]
-    elif k == "g2":
-        head = "gate %d %d" % (op[3], op[4])
-    elif k in ("abs", "absp"):
-        return "spec absorb | %d | %s | %s" % (mx, _labels(ls), _labels(r["spec_pre2"][1]))
+    tail = " | %d | %s" % (mx, _labels(ls))
     if k in ("add", "addst"):
-        # the fresh slot gets the next unused label; the driver appends the label it is given
+        # the new slot's label is the one the reference handed out (any label if the call was refused)
         new = [x for x in r["spec_post"] if x not in ls]
-        return "spec add %s | %d | %s" % (new[0] if new else 999, mx, _labels(ls))
-    return "spec %s | %d | %s" % (head, mx, _labels(ls))
+        return "spec add %d%s" % (new[0] if new else 999, tail)
+    if k == "g1":
+        if op[2] == "T" and r["engine"] == "stab":
+            return "spec unsupported" + tail
+        return "spec gate %d%s" % (op[3], tail)
+    if k == "g2":
+        return "spec gate %d %d%s" % (op[3], op[4], tail)
+    if k in ("mi", "md", "rm"):
+        return "spec %s %d%s" % ({"mi": "measure_inplace", "md": "measure", "rm": "remove"}[k], op[2], tail)
+    if k in ("abs", "absp"):
+        return "spec absorb%s | %s" % (tail, _labels(r["spec_pre2"][1]))
+    raise core.MachineryError("no spec line for %r" % (op,))
 
 
 def spec_obs(r):
@@ -827,75 +925,72 @@ def spec_obs(r):
 def qutip_line(r):
     op = r["op"]
     k = op[0]
-    a = r["pre_book"]
-    mx = r["spec_pre"][0]
+    st = " | %d %d" % (r["pre_book"], r["spec_pre"][0])
     if k in ("add", "addst"):
-        return "qutip add | %d %d" % (a, mx)
+        return "qutip add" + st
+    if k == "g1":
+        return "qutip gate1 %d%s" % (op[3], st)
+    if k == "g2":
+        return "qutip gate2 %d %d%s" % (op[3], op[4], st)
     if k in ("mi", "md", "rm"):
-        return "qutip %s %d | %d %d" % ({"mi": "measure_inplace", "md": "measure", "rm": "remove"}[k], op[2], a, mx)
+        return "qutip %s %d%s" % ({"mi": "measure_inplace", "md": "measure", "rm": "remove"}[k], op[2], st)
     if k in ("abs", "absp"):
-        return "qutip %s %d | %d %d" % ("absorb" if k == "abs" else "absorb_parts", r["pre2_book"], a, mx)
-    return None
+        return "qutip %s %d%s" % ("absorb" if k == "abs" else "absorb_parts", r["pre2_book"], st)
+    raise core.MachineryError("no qutip line for %r" % (op,))
+
+
+def _res(obs):
+    return "ok" if obs[0] == "ok" else "err " + ERRNAME.get(obs[1], obs[1])
 
 
 def qutip_obs(r):
-    obs = r["obs"]
-    res = "ok" if obs[0] == "ok" else "err " + ERRNAME.get(obs[1], obs[1])
     keep = r["ptrace"]
-    return "%s | %d | %s" % (res, r["post_book"], " ".join(str(x) for x in keep[-1]) if keep else "-")
+    return "%s | %d | %s" % (_res(r["obs"]), r["post_book"], _labels(keep[-1]) if keep else "-")
 
 
-def projq_line(r, fresh):
+def projq_line(r):
     op = r["op"]
     k = op[0]
     a, ids = r["pre_book"]
-    mx = r["spec_pre"][0]
-    st = "%d %d | %s" % (a, mx, _labels(ids))
-    if k == "add":
-        return "projq add %d | %s" % (fresh[0] if fresh else 999, st)
-    if k == "addst":
-        return "projq add %d | %s" % (fresh[0] if fresh else 999, st)
-    if k in ("mi", "md", "rm"):
-        return "projq %s %d | %s" % ({"mi": "measure_inplace", "md": "measure", "rm": "remove"}[k], op[2], st)
+    st = " | %d %d | %s" % (a, r["spec_pre"][0], _labels(ids))
+    fresh = sorted(x for x in r["post_book"][1] if x not in ids)
+    if k in ("add", "addst"):
+        return "projq add %d%s" % (fresh[0] if fresh else 999, st)
     if k == "g1":
-        return "projq gate1 %d | %s" % (op[3], st)
+        return "projq gate1 %d%s" % (op[3], st)
     if k == "g2":
-        return "projq gate2 %d %d | %s" % (op[3], op[4], st)
-    return None
+        return "projq gate2 %d %d%s" % (op[3], op[4], st)
+    if k in ("mi", "md", "rm"):
+        return "projq %s %d%s" % ({"mi": "measure_inplace", "md": "measure", "rm": "remove"}[k], op[2], st)
+    if k in ("abs", "absp"):
+        return "projq %s %d%s | %s | %s" % ("absorb" if k == "abs" else "absorb_parts", r["pre2_book"][0], st,
+                                            _labels(r["bits"]), _labels(fresh))
+    raise core.MachineryError("no projq line for %r" % (op,))
+
+
+def projq_obs(r):
+    return "%s | %d | %s" % (_res(r["obs"]), r["post_book"][0], _labels(r["post_book"][1]))
 
 
 def tie(res, recs):
-    lines, wants, what = [], [], []
-    canon_jobs = []
+    lines, wants = [], []
     for r in recs:
         if r["engine"] == "stab":
             lines.append(stab_line(r))
             wants.append(("stab", r))
+        elif r["engine"] == "qutip":
+            lines.append(qutip_line(r))
+            wants.append(("qutip", r))
+        else:
+            lines.append(projq_line(r))
+            wants.append(("projq", r))
         lines.append(spec_line(r))
         wants.append(("spec", r))
-        if r["engine"] == "qutip":
-            ln = qutip_line(r)
-            if ln:
-                lines.append(ln)
-                wants.append(("qutip", r))
-        if r["engine"] == "projq":
-            a, ids = r["pre_book"]
-            fresh = [x for x in r["post_book"][1] if x not in ids]
-            ln = projq_line(r, fresh)
-            if ln:
-                lines.append(ln)
-                wants.append(("projq", r))
-            if r["op"][0] in ("abs", "absp") and r["obs"][0] == "ok" and r["pre2_book"][0] > 0 and (a > 0 or r["op"][0] == "absp"):
-                # the re-indexing of absorb_parts: freshly allocated ids in allocation order, source order map
-                lines.append("projq_reindex | %s | %s" % (_labels(sorted(fresh)), _labels(r.get("order", []))))
-                wants.append(("skip", r))
     outs = core.lean_run("engine", lines)
     pending = []
     for ln, (kind, r), out in zip(lines, wants, outs):
         if out == "bad-op":
             raise core.MachineryError("driver refused %r" % ln)
-        if kind == "skip":
-            continue
         res.traces += 1
         if kind == "stab":
             head, _, post = out.partition(" | ")
@@ -908,20 +1003,15 @@ def tie(res, recs):
                 res.count("tie:stab_post_literal")
             else:
                 pending.append((ln, post, impl_post))
-        elif kind == "spec":
-            mine = spec_obs(r)
+        else:
+            mine = {"spec": spec_obs, "qutip": qutip_obs, "projq": projq_obs}[kind](r)
             if out != mine:
-                res.tie_break("RegSpec (Lean) vs reference bookkeeping", ln, out, mine)
-        elif kind == "qutip":
-            mine = qutip_obs(r)
-            if out != mine:
-                res.tie_break("QutipBk vs qutipEngine bookkeeping", ln, out, mine)
-        elif kind == "projq":
-            obs = r["obs"]
-            mine = "%s | %d | %s" % ("ok" if obs[0] == "ok" else "err " + ERRNAME.get(obs[1], obs[1]),
-                                     r["post_book"][0], _labels(r["post_book"][1]))
-            if out != mine:
-                res.tie_break("ProjQBk vs projectQEngine bookkeeping", ln, out, mine)
+                res.tie_break({"spec": "RegSpec (Lean contract) vs the reference's slot bookkeeping",
+                               "qutip": "QutipBk vs qutipEngine bookkeeping (result | activeQubits | list given to ptrace)",
+                               "projq": "ProjQBk vs projectQEngine bookkeeping (result | activeQubits | qubit ids)"}[kind],
+                              ln, out, mine)
+            else:
+                res.count("tie:" + kind)
     if pending:
         cl = []
         for ln, post, impl_post in pending:
@@ -952,6 +1042,9 @@ FIXED = [
     # ... into a NON-EMPTY register
     [["new", 0, 6], ["add", 0], ["g1", 0, "H", 0], ["new", 1, 3]] + asym(1) + [["abs", 0, 1], ["md", 0, 2, 1]],
     [["new", 0, 6], ["add", 0], ["g1", 0, "K", 0], ["new", 1, 3]] + asym(1) + [["absp", 0, 1], ["rm", 0, 1, 0]],
+    # ... with the exported bit positions in another order (same state, another encoding)
+    [["new", 0, 4], ["new", 1, 4]] + asym(1) + [["absp", 0, 1, [2, 0, 1, 3, 4, 5]], ["md", 0, 0, 1], ["mi", 0, 0, 0]],
+    [["new", 0, 6], ["add", 0], ["g1", 0, "K", 0], ["new", 1, 3]] + asym(1) + [["absp", 0, 1, [1, 2, 0, 3, 4, 5]], ["rm", 0, 1, 0]],
     # absorbing an EMPTY register
     [["new", 0, 3], ["add", 0], ["g1", 0, "H", 0], ["new", 1, 2], ["abs", 0, 1], ["mi", 0, 0, 1]],
     [["new", 0, 3], ["add", 0], ["g1", 0, "H", 0], ["new", 1, 2], ["absp", 0, 1], ["mi", 0, 0, 1]],
@@ -974,6 +1067,48 @@ FIXED = [
 
 
 # --------------------------------------------------------------------------
+# validation of the stand-ins: the repo's own engine tests must execute and pass against them
+# --------------------------------------------------------------------------
+
+ENGINE_TESTS = ("test_qutip_engine.py", "test_project_q_engine.py")
+_TEST_DRIVER = """
+import json, sys, unittest
+sys.path[:0] = [%r, %r]
+import test_qutip_engine as a, test_project_q_engine as b
+if not (a._has_module and b._has_module):
+    print(json.dumps({"ran": 0, "failed": ["has_module is false: the stand-ins were not importable"]}))
+    sys.exit(0)
+suite = unittest.TestSuite()
+for m in (a, b):
+    suite.addTests(unittest.defaultTestLoader.loadTestsFromModule(m))
+r = unittest.TestResult()
+suite.run(r)
+print(json.dumps({"ran": r.testsRun, "failed": [[t.id(), tb.strip().splitlines()[-1]] for t, tb in r.failures + r.errors]}))
+"""
+
+
+def run_engine_tests():
+    """tests/quick/engine/test_{qutip,project_q}_engine.py are no-ops without the packages; with the stand-ins on the
+    path they execute.  Returns (ran, failed)."""
+    scratch = core.scratch_repo()
+    tdir = tempfile.mkdtemp(prefix="enginetests_", dir=scratch)
+    try:
+        for f in ENGINE_TESTS:
+            shutil.copy(os.path.join(core.REPO, "tests", "quick", "engine", f), tdir)
+        env = dict(os.environ)
+        env["PYTHONDONTWRITEBYTECODE"] = "1"
+        p = subprocess.run([sys.executable, "-W", "ignore", "-c", _TEST_DRIVER % (SHIMS, scratch)], cwd=tdir, env=env,
+                           capture_output=True, text=True, timeout=300)
+        last = [ln for ln in p.stdout.splitlines() if ln.startswith("{")]
+        if p.returncode != 0 or not last:
+            raise core.MachineryError("engine tests against the stand-ins did not run: " + (p.stderr or p.stdout)[-400:])
+        out = json.loads(last[-1])
+        return out["ran"], out["failed"]
+    finally:
+        shutil.rmtree(tdir, True)
+
+
+# --------------------------------------------------------------------------
 # run
 # --------------------------------------------------------------------------
 
@@ -982,7 +1117,7 @@ def run(ctx):
     res = core.Result()
     res.rule = ("call sequences of <= 12 calls over <= 3 registers with maxQubits 0..6 (new register, add_fresh_qubit, add_qubit in "
                 "|0>,|1>,|+>,|+i>,|->, apply_X/Y/Z/H/K/T, apply_CNOT/CPHASE on random ordered pairs, measure_qubit_inplace, "
-                "measure_qubit, remove_qubit with a scripted coin, absorb, get_register_RI -> absorb_parts; ~7% invalid positions, "
+                "measure_qubit, remove_qubit with a scripted coin, absorb, get_register_RI -> absorb_parts; ~7%% invalid positions, "
                 "full registers and over-full merges arise from the small limits), the SAME sequence on all three engines, "
                 "+ %d fixed sequences (absorb/export of an entangled asymmetric 3-qubit state into empty / non-empty registers, "
                 "absorbing an empty register, limits, missing slots); after every call every live register is compared with the "
@@ -993,7 +1128,8 @@ def run(ctx):
                 ([replay["input"]["engine"]] if replay["input"].get("engine") else ENGINES)]
     else:
         nseq = ctx.scale(300, 5000)
-        seqs = [list(s) for s in FIXED] + [gen_sequence(ctx.rng) for _ in range(nseq)]
+        seqs = [list(s) for s in FIXED] + [gen_scenario(ctx.rng) if ctx.rng.random() < 0.4 else gen_sequence(ctx.rng)
+                                           for _ in range(nseq)]
         jobs = [(e, s) for s in seqs for e in ENGINES]
     recs = []
     seen_keys = set()
@@ -1029,8 +1165,20 @@ def run(ctx):
             res.count("op:" + op[0])
     if ctx.lean_ok and recs:
         tie(res, recs)
-    res.notes.append("stand-ins validated by the repo's engine tests (tests/quick/engine/test_qutip_engine.py: 3, "
-                     "test_project_q_engine.py: 34); their fidelity to real qutip / projectq is an assumption")
+    if not replay:
+        ran, failed = run_engine_tests()
+        if ran != 37:
+            raise core.MachineryError("expected the repo's 3 + 34 engine tests to execute against the stand-ins, %d ran (%r)" % (
+                ran, failed[:2]))
+        res.count("engine_tests_ran", ran)
+        res.count("engine_tests_passed", ran - len(failed))
+        for tid, why in failed:
+            short = ".".join(tid.split(".")[-2:])
+            res.violation("enginetest:" + short, "the repo's own engine test %s fails when it actually executes (against the "
+                          "stand-in): %s" % (tid, why), {"test": tid, "how": "PYTHONPATH=harness/shims:<scratch copy> python -m unittest " + tid})
+        res.notes.append("stand-ins validated by the repo's engine tests executed against them: %d ran "
+                         "(test_qutip_engine.py 3, test_project_q_engine.py 34), %d passed; their fidelity to real qutip / "
+                         "projectq is an assumption" % (ran, ran - len(failed)))
     res.notes.append("remove_qubit: projective measurement (stabilizer, projectq) vs partial trace (qutip): the reference follows "
                      "the engine's unravelling; both equal 'delete slot j' at ensemble level")
     return res
